@@ -2,10 +2,12 @@ package props
 
 import (
 	"fmt"
+	"math"
 	"strings"
 	"time"
 
 	"github.com/ipfs/go-cid"
+	"github.com/ipld/go-ipld-prime/node/basicnode"
 
 	"github.com/ucan-wg/go-ucan/pkg/policy"
 	"github.com/ucan-wg/go-ucan/pkg/policy/literal"
@@ -317,6 +319,19 @@ func c05TrueStatements() []policy.Constructor {
 		policy.Any(".l", policy.Equal(".", literal.Int(3))),
 		policy.Any(".m[]", policy.Like(".", "v")),
 		policy.Not(policy.Any(".e", policy.Equal(".", literal.Int(1)))),
+		// strings are sliced by character: t = U+1F600 (outside the BMP), a, U+0301 (a combining mark), b, c
+		policy.Equal(".t[0:2]", literal.String("\U0001F600a")),
+		policy.Equal(".t[1:3]", literal.String("a\u0301")),
+		policy.Equal(".t[-2:]", literal.String("bc")),
+		policy.Like(".t[1:]", "a*c"),
+		policy.Equal(".t[2:][1:]", literal.String("bc")),
+		// the two zeros are one number
+		policy.Equal(".z", literal.Float(0)),
+		policy.Equal(".pz", literal.Float(math.Copysign(0, -1))),
+		policy.Equal(".zl", nList(basicnode.NewFloat(0), basicnode.NewFloat(math.Copysign(0, -1)))),
+		policy.GreaterThanOrEqual(".z", literal.Float(0)),
+		policy.LessThanOrEqual(".pz", literal.Float(math.Copysign(0, -1))),
+		policy.Not(policy.LessThan(".z", literal.Float(0))),
 	}
 }
 
@@ -331,9 +346,9 @@ func c05PolicySub() *engine.Sub {
 	stmts := c05TrueStatements()
 	return &engine.Sub{
 		Name: "satisfied-policy-universe",
-		Rule: "rule-conforming chains of 1..2 links (quick; 3 thorough) whose policies are drawn from 35 statements that are true for the invocation's arguments under the classical reading - one per operator, selector form (field, nested field, index, negative index, slice, optional, iterator) and pattern feature (literal, prefix/suffix star, escapes without and with stars, escaped backslash); every such invocation must be allowed; non-trivial = all",
+		Rule: "rule-conforming chains of 1..2 links (quick; 3 thorough) whose policies are drawn from " + fmt.Sprint(len(stmts)) + " statements that are true for the invocation's arguments under the classical reading - one per operator, selector form (field, nested field, index, negative index, slice, optional, iterator) and pattern feature (literal, prefix/suffix star, escapes without and with stars, escaped backslash), plus slices of a string holding a character outside the BMP and a combining mark (by character) and comparisons between the two floating-point zeros (one number); every such invocation must be allowed; non-trivial = all",
 		Bound: func(t string) string {
-			return fmt.Sprintf("35 true statements per link, chains of 1..%d links, leaf policy of 1 or 2 statements", tierN(t, 2, 3))
+			return fmt.Sprintf("%d true statements per link, chains of 1..%d links, leaf policy of 1 or 2 statements", len(stmts), tierN(t, 2, 3))
 		},
 		Setup: func(string) error { chainInit(); return nil },
 		Gen: func(tier string, emit func(any) bool) {
@@ -386,7 +401,8 @@ func c05PolicySub() *engine.Sub {
 			inv, err := invocation.New(prin(n%3), prin(0), "/a", prf, invocation.WithNonce(fixedNonce),
 				invocation.WithArgument("x", 1), invocation.WithArgument("f", 1.5), invocation.WithArgument("y", "ab"), invocation.WithArgument("s", `a*b\c`),
 				invocation.WithArgument("l", []int{1, 2, 3}), invocation.WithArgument("m", map[string]string{"k": "v"}), invocation.WithArgument("e", []int{}),
-				invocation.WithArgument("r", "backup"+strings.Repeat("_", 60)+"v2.tar"), invocation.WithArgument("q", strings.Repeat("a", 400)+"b"))
+				invocation.WithArgument("r", "backup"+strings.Repeat("_", 60)+"v2.tar"), invocation.WithArgument("q", strings.Repeat("a", 400)+"b"),
+				invocation.WithArgument("t", "\U0001F600a\u0301bc"), invocation.WithArgument("z", math.Copysign(0, -1)), invocation.WithArgument("pz", 0.0), invocation.WithArgument("zl", []float64{math.Copysign(0, -1), 0}))
 			if err != nil {
 				panic(err)
 			}
